@@ -123,6 +123,18 @@ class MaybeV(V):
         self.inner, self.src = inner, inner.src
 
 
+TRANSFER_IN_BRANCH = True
+
+
+def has_transfer(effs) -> bool:
+    for e in effs:
+        if e[0] in ("W", "B", "rec"):
+            return True
+        if e[0] in ("loop", "if") and has_transfer(e[2]):
+            return True
+    return False
+
+
 # ---------------------------------------------------------------- interpreter
 class Interp:
     def __init__(self, eng, module: str, buf_cls: str, word_prims: Dict[str, Tuple[str, int]], depth_limit: int = 12):
@@ -158,11 +170,35 @@ class Interp:
     # -- statements ------------------------------------------------------------------
     def block(self, stmts, env, effects, f, depth) -> Optional[V]:
         """returns the returned value if the block definitely returns, else None"""
-        for st in stmts:
+        for i, st in enumerate(stmts):
+            if isinstance(st, ast.If) and not st.orelse and i + 1 < len(stmts):
+                r = self.early_if(st, stmts[i + 1:], env, effects, f, depth)
+                if r is not NotImplemented:
+                    return r
             r = self.stmt(st, env, effects, f, depth)
             if r is not None:
                 return r
         return None
+
+    def early_if(self, st, rest, env, effects, f, depth):
+        """`if c: <transfers>; return ...` followed by more statements: the rest is the else branch.
+        Only taken when the condition is not static and the branch transfers data and returns."""
+        mark = len(effects)
+        c = self.cond(st.test, env, effects, f, depth)
+        if c is True or c is False or not TRANSFER_IN_BRANCH:
+            del effects[mark:]
+            return NotImplemented
+        e1: List = []
+        r1 = self.block(st.body, dict(env), e1, f, depth)
+        if r1 is None or not has_transfer(e1) or isinstance(st.body[-1], ast.Raise):
+            del effects[mark:]
+            return NotImplemented
+        e2: List = []
+        r2 = self.block(rest, env, e2, f, depth)
+        effects.append(("if", c, e1))
+        if e2:
+            effects.append(("if", ("not", c), e2))
+        return r2 if r2 is not None else r1
 
     def stmt(self, st, env, effects, f, depth) -> Optional[V]:
         if isinstance(st, ast.Expr):
@@ -283,6 +319,8 @@ class Interp:
                 quals.append(r[1])
             if isinstance(v, TypeV) and v.cls is not None:
                 return any(self.prog.is_subclass(v.cls, q) for q in quals)
+            if isinstance(v, TypeV):
+                return ("isinstance", v.src, tuple(quals))
             raise Unsupported("isinstance on non-constant type %s" % norm(test.args[0]))
         if isinstance(test, ast.BoolOp):
             vals = [self.cond(x, env, effects, f, depth) for x in test.values]
@@ -296,7 +334,10 @@ class Interp:
                     return False
                 if all(v is True for v in vals):
                     return True
-            return ("bool", norm(test, 60))
+            rest = [v for v in vals if v is not True and v is not False]
+            if len(rest) == 1:
+                return rest[0]
+            return ("or" if isinstance(test.op, ast.Or) else "and", tuple(rest), norm(test, 60))
         if isinstance(test, ast.UnaryOp) and isinstance(test.op, ast.Not):
             c = self.cond(test.operand, env, effects, f, depth)
             if c is True:
@@ -406,6 +447,9 @@ class Interp:
                 o = b if w is a else a
                 return IntV(None, sym=("mul", w, o.const if isinstance(o, IntV) else None), src=norm(e, 40))
             return IntV(None, sym=("expr", norm(e, 50)), src=norm(e, 40))
+        if isinstance(e, ast.BoolOp) or (isinstance(e, ast.UnaryOp) and isinstance(e.op, ast.Not)):
+            c = self.cond(e, env, effects, f, depth)
+            return BoolV(c, norm(e, 60))
         if isinstance(e, ast.UnaryOp):
             v = self.expr(e.operand, env, effects, f, depth)
             return Unknown(norm(e, 30))
